@@ -290,7 +290,7 @@ fn unconnected_exec(kind: usize, ctx: &WorkerCtx) -> ExecResult {
             peer.pump();
             peer_opt = Some(peer);
         }
-        if kind == 4 {
+        if kind == 4 || kind == 5 {
             // a connection that was established and then closed by the caller
             let h = tokio::spawn(async move { let r = conn.connect().await; (conn, r) });
             let mut peer = match w.accept_peer().await { Some(p) => p, None => { res.violations.push(("library never connected".into(), json!({}))); return res; } };
@@ -300,7 +300,10 @@ fn unconnected_exec(kind: usize, ctx: &WorkerCtx) -> ExecResult {
             let (c, r) = (&mut h).await.unwrap();
             conn = c;
             if r.is_err() { res.violations.push(("connect failed under a conforming peer".into(), json!({}))); return res; }
+            // kind 5: the read half has been handed out before (as a Node does with every connection it makes)
+            let _rh = if kind == 5 { conn.take_read_half() } else { None };
             let _ = conn.close().await;
+            if conn.state() == edp_client::ConnectionState::Connected || conn.is_connected() { res.violations.push(("close() leaves the connection in the connected state".into(), json!({"read_half_taken_before": kind == 5}))); }
             let no_probe = || 0u64;
             w.settle(&mut peer, &no_probe).await;
             peer_opt = Some(peer);
@@ -324,7 +327,8 @@ fn unconnected_exec(kind: usize, ctx: &WorkerCtx) -> ExecResult {
 
 const GATES07: [&str; 6] = ["send.before_lock", "conn.write.after_len", "conn.write.after_marker", "conn.write.after_control", "conn.write.done", "drv.step"];
 
-fn concurrent(ch: &mut Chooser, ctx: &WorkerCtx, ntasks: usize, per_task: usize) -> ExecResult {
+/// `burst`: a task parks at its driver gate only before its first operation and issues the rest back to back.
+fn concurrent(ch: &mut Chooser, ctx: &WorkerCtx, ntasks: usize, per_task: usize, burst: bool) -> ExecResult {
     run_rt(async move {
         let mut res = ExecResult::default();
         let mut nw = match node_world(ctx, flags_default()).await { Ok(x) => x, Err(e) => { res.violations.push(("could not establish the connection under a conforming peer".into(), json!({"error": e}))); return res; } };
@@ -339,9 +343,11 @@ fn concurrent(ch: &mut Chooser, ctx: &WorkerCtx, ntasks: usize, per_task: usize)
             let (node, issued, fin, me) = (nw.node.clone(), issued.clone(), finished.clone(), me.clone());
             let h = tokio::spawn(async move {
                 for i in 0..per_task {
-                    crate::world::drv_step(&format!("sender{}", t)).await;
+                    if !burst || i == 0 { crate::world::drv_step(&format!("sender{}", t)).await; }
                     let to = pid_remote(10 + t as u32);
-                    let (exp, ok) = match (t + i) % 3 {
+                    let kind = if burst { [3usize, 0, 1, 2][(t + i) % 4] } else { (t + i) % 3 };
+                    let (exp, ok) = match kind {
+                        3 => { let rf = node.make_reference(); let r = node.demonitor(&me, &to, &rf).await; (DistMsg { control: RefVal::Tuple(vec![RefVal::int(20), den_pid(&me), den_pid(&to), den_ref(&rf)]), payload: None }, r.is_ok()) }
                         0 => { let msg = OwnedTerm::Tuple(vec![OwnedTerm::Integer(t as i64), OwnedTerm::Integer(i as i64), OwnedTerm::Binary(vec![t as u8; 40])]); let r = node.send(&to, msg.clone()).await; (DistMsg { control: RefVal::Tuple(vec![RefVal::int(2), RefVal::atom(""), den_pid(&to)]), payload: Some(denote(&msg)) }, r.is_ok()) }
                         1 => { let r = node.link(&me, &to).await; (DistMsg { control: RefVal::Tuple(vec![RefVal::int(1), den_pid(&me), den_pid(&to)]), payload: None }, r.is_ok()) }
                         _ => { let r = node.monitor(&me, &to).await; match r { Ok(rf) => (DistMsg { control: RefVal::Tuple(vec![RefVal::int(19), den_pid(&me), den_pid(&to), den_ref(&rf)]), payload: None }, true), Err(_) => (DistMsg { control: RefVal::Nil, payload: None }, false) } }
@@ -442,25 +448,113 @@ fn stalled_exec(big_mib: &usize, ctx: &WorkerCtx) -> ExecResult {
     })
 }
 
+/// One caller issues several operations back to back while the connection is held by someone else (the harness holds
+/// its mutex); once it is released the frames must reach the peer in the order the caller issued them.
+fn held_burst_exec(order: &usize, ctx: &WorkerCtx) -> ExecResult {
+    let order = *order;
+    run_rt(async move {
+        let mut res = ExecResult::default();
+        let mut nw = match node_world(ctx, flags_default()).await { Ok(x) => x, Err(e) => { res.violations.push(("could not establish the connection under a conforming peer".into(), json!({"error": e}))); return res; } };
+        nw.w.gates.set_active(&[]);
+        let me = nw.node.spawn(crate::procs::Rec { name: "me".into(), log: Arc::new(Mutex::new(vec![])) }).await.unwrap();
+        let conn = match nw.node.connections().get(PEER_NAME).map(|c| Arc::clone(c.value())) { Some(c) => c, None => { res.violations.push(("connection not registered".into(), json!({}))); return res; } };
+        let to = pid_remote(10);
+        // the four kinds of operation in four rotations
+        let kinds: Vec<usize> = (0..4).map(|i| (i + order) % 4).collect();
+        let issued: Arc<Mutex<Vec<DistMsg>>> = Arc::new(Mutex::new(vec![]));
+        let done = Arc::new(Mutex::new(false));
+        let guard = conn.lock().await;
+        {
+            let (node, me, to, issued, done, kinds) = (nw.node.clone(), me.clone(), to.clone(), issued.clone(), done.clone(), kinds.clone());
+            tokio::spawn(async move {
+                for k in kinds {
+                    let exp = match k {
+                        0 => { let msg = OwnedTerm::Tuple(vec![OwnedTerm::atom("burst"), OwnedTerm::Integer(k as i64)]); let _ = node.send(&to, msg.clone()).await; DistMsg { control: RefVal::Tuple(vec![RefVal::int(2), RefVal::atom(""), den_pid(&to)]), payload: Some(denote(&msg)) } }
+                        1 => { let _ = node.link(&me, &to).await; DistMsg { control: RefVal::Tuple(vec![RefVal::int(1), den_pid(&me), den_pid(&to)]), payload: None } }
+                        2 => { match node.monitor(&me, &to).await { Ok(rf) => DistMsg { control: RefVal::Tuple(vec![RefVal::int(19), den_pid(&me), den_pid(&to), den_ref(&rf)]), payload: None }, Err(_) => DistMsg { control: RefVal::Nil, payload: None } } }
+                        _ => { let rf = node.make_reference(); let _ = node.demonitor(&me, &to, &rf).await; DistMsg { control: RefVal::Tuple(vec![RefVal::int(20), den_pid(&me), den_pid(&to), den_ref(&rf)]), payload: None } }
+                    };
+                    issued.lock().unwrap().push(exp);
+                }
+                *done.lock().unwrap() = true;
+            });
+        }
+        for _ in 0..400 { nw.w.yield_once().await; }
+        drop(guard);
+        let probe = { let d = done.clone(); let i = issued.clone(); move || *d.lock().unwrap() as u64 * 100 + i.lock().unwrap().len() as u64 };
+        nw.w.settle(&mut nw.peer, &probe).await;
+        let (frames, rest) = nw.peer.dist_frames();
+        let parsed: Vec<Option<DistMsg>> = frames.iter().map(|f| read_pass_through(f).ok()).collect();
+        let iss = issued.lock().unwrap().clone();
+        let same = parsed.len() == iss.len() && parsed.iter().zip(&iss).all(|(p, e)| p.as_ref().map(|p| same_msg(p, e)).unwrap_or(false));
+        if !same || !rest.is_empty() || !*done.lock().unwrap() {
+            res.violations.push(("operations issued back to back by one caller reached the peer in another order, or not once each".into(), json!({"issued": iss.iter().map(|m| m.control.short()).collect::<Vec<_>>(), "on_the_wire": parsed.iter().map(|p| p.as_ref().map(|m| m.control.short())).collect::<Vec<_>>(), "stray_bytes": rest.len()})));
+        }
+        res.steps = 4;
+        res.outcome = format!("held burst {}", order);
+        res
+    })
+}
+
+/// Every Node-level operation writes exactly one frame - also the second time round and after an earlier failure.
+fn node_repeats_exec(_k: &usize, ctx: &WorkerCtx) -> ExecResult {
+    run_rt(async move {
+        let mut res = ExecResult::default();
+        let mut nw = match node_world(ctx, flags_default()).await { Ok(x) => x, Err(e) => { res.violations.push(("could not establish the connection under a conforming peer".into(), json!({"error": e}))); return res; } };
+        nw.w.gates.set_active(&[]);
+        let me = nw.node.spawn(crate::procs::Rec { name: "me".into(), log: Arc::new(Mutex::new(vec![])) }).await.unwrap();
+        let to = pid_remote(10);
+        let elsewhere = ExternalPid::new(Atom::new("nobody@127.0.0.1"), 1, 0, 1);
+        let no_probe = || 0u64;
+        let mut expect: Vec<DistMsg> = vec![];
+        // operations towards a node that is not connected fail and write nothing ...
+        for r in [nw.node.link(&me, &elsewhere).await.is_ok(), nw.node.send(&elsewhere, OwnedTerm::atom("x")).await.is_ok(), nw.node.monitor(&me, &elsewhere).await.is_ok()] {
+            if r { res.violations.push(("operation towards an unconnected node succeeded".into(), json!({}))); }
+        }
+        // ... and do not change what the same operations do on the connected one, however often they are repeated
+        for round in 0..3 {
+            if nw.node.link(&me, &to).await.is_ok() { expect.push(DistMsg { control: RefVal::Tuple(vec![RefVal::int(1), den_pid(&me), den_pid(&to)]), payload: None }); } else { res.violations.push(("link failed on a connected node".into(), json!({"round": round}))); }
+            match nw.node.monitor(&me, &to).await { Ok(rf) => expect.push(DistMsg { control: RefVal::Tuple(vec![RefVal::int(19), den_pid(&me), den_pid(&to), den_ref(&rf)]), payload: None }), Err(_) => res.violations.push(("monitor failed on a connected node".into(), json!({"round": round}))) }
+            let msg = OwnedTerm::Tuple(vec![OwnedTerm::atom("again"), OwnedTerm::Integer(round)]);
+            if nw.node.send(&to, msg.clone()).await.is_ok() { expect.push(DistMsg { control: RefVal::Tuple(vec![RefVal::int(2), RefVal::atom(""), den_pid(&to)]), payload: Some(denote(&msg)) }); } else { res.violations.push(("send failed on a connected node".into(), json!({"round": round}))); }
+            if round == 1 { let _ = nw.node.unlink(&me, &to).await; nw.w.settle(&mut nw.peer, &no_probe).await; let (f, _) = nw.peer.dist_frames(); if let Some(Ok(m)) = f.last().map(|x| read_pass_through(x)) { expect.push(m); } }
+        }
+        nw.w.settle(&mut nw.peer, &no_probe).await;
+        let (frames, rest) = nw.peer.dist_frames();
+        let parsed: Vec<Option<DistMsg>> = frames.iter().map(|f| read_pass_through(f).ok()).collect();
+        let same = parsed.len() == expect.len() && parsed.iter().zip(&expect).all(|(p, e)| p.as_ref().map(|p| same_msg(p, e)).unwrap_or(false));
+        if !same || !rest.is_empty() {
+            res.violations.push(("a repeated Node operation did not write exactly one frame each time".into(), json!({"expected": expect.iter().map(|m| m.control.short()).collect::<Vec<_>>(), "on_the_wire": parsed.iter().map(|p| p.as_ref().map(|m| m.control.short())).collect::<Vec<_>>()})));
+        }
+        res.steps = expect.len() as u64;
+        res.outcome = "node repeats".into();
+        res
+    })
+}
+
 pub fn run(rep: &Report) -> Value {
     let thorough = rep.thorough();
     let modes = [false, true];
     let st_inputs: Stats = for_all(rep, "operations x arguments x framing mode", &modes, |m, ctx| inputs_exec(*m, thorough, ctx));
-    let kinds = [0usize, 1, 2, 3, 4];
+    let kinds = [0usize, 1, 2, 3, 4, 5];
     let st_unc: Stats = for_all(rep, "operations before the handshake completed", &kinds, |k, ctx| unconnected_exec(*k, ctx));
+    let rots = [0usize, 1, 2, 3];
+    let st_hb: Stats = for_all(rep, "one caller's operations back to back behind a held connection", &rots, |k, ctx| held_burst_exec(k, ctx));
+    let one = [0usize];
+    let st_rep: Stats = for_all(rep, "repeated Node operations, after failures elsewhere", &one, |k, ctx| node_repeats_exec(k, ctx));
     let sizes = [24usize];
     let st_stall: Stats = for_all(rep, "peer stops reading in the middle of a large frame", &sizes, |k, ctx| stalled_exec(k, ctx));
     let orders = [true, false];
     let st_re: Stats = for_all(rep, "one Connection, two sessions with different negotiated framing", &orders, |o, ctx| reconnect_exec(*o, ctx));
     let n_ops = op_list(thorough).len();
     let mut conc = vec![];
-    let plans: Vec<(usize, usize, usize)> = if thorough { vec![(2, 1, 3), (2, 2, 3), (3, 1, 3), (3, 2, 2)] } else { vec![(2, 1, 2), (2, 2, 2), (3, 1, 2)] };
-    for (t, p, b) in plans {
-        let name = format!("{} tasks x {} operations, bound {}", t, p, b);
-        let st = explore(rep, &name, b, std::time::Duration::from_secs(if thorough { 600 } else { 30 }), |ch, ctx| concurrent(ch, ctx, t, p));
+    let plans: Vec<(usize, usize, usize, bool)> = if thorough { vec![(2, 1, 3, false), (2, 2, 3, false), (3, 1, 3, false), (3, 2, 2, false), (2, 3, 3, true), (3, 3, 2, true)] } else { vec![(2, 1, 2, false), (2, 2, 2, false), (3, 1, 2, false), (2, 3, 2, true)] };
+    for (t, p, b, burst) in plans {
+        let name = format!("{} tasks x {} operations{}, bound {}", t, p, if burst { " issued back to back" } else { "" }, b);
+        let st = explore(rep, &name, b, std::time::Duration::from_secs(if thorough { 600 } else { 30 }), |ch, ctx| concurrent(ch, ctx, t, p, burst));
         conc.push((name, st));
     }
-    let states = st_inputs.executions + st_unc.executions + st_re.executions + st_stall.executions + conc.iter().map(|c| c.1.executions).sum::<u64>();
+    let states = st_inputs.executions + st_unc.executions + st_re.executions + st_stall.executions + st_hb.executions + st_rep.executions + conc.iter().map(|c| c.1.executions).sum::<u64>();
     let transitions = st_inputs.transitions + st_unc.transitions + st_re.transitions + conc.iter().map(|c| c.1.transitions).sum::<u64>();
     let mut samples = vec![json!({"operation": op_list(false)[3].short()}), json!({"operation": op_list(false)[op_list(false).len() - 5].short()})];
     for c in &conc { samples.extend(c.1.samples.iter().take(1).cloned()); }
@@ -473,6 +567,6 @@ pub fn run(rep: &Report) -> Value {
         "operations_per_mode": n_ops,
         "concurrent": conc.iter().map(|(n, s)| json!({"scenario": n, "executions": s.executions, "deviation_bound_completed": s.bound_completed, "distinct_outcomes": s.distinct_outcomes, "unstable_failures_not_reported": s.unstable, "max_decision_points": s.max_points})).collect::<Vec<_>>(),
         "distinct_outcomes": conc.iter().map(|c| c.1.distinct_outcomes).sum::<usize>(),
-        "rule": "(inputs) the six send-side operations x argument values (plain and node-local pids/references, names of 0/255 bytes and UTF-8, payloads from the boundary alphabet, unlink ids across 64 bits) in pass-through and distribution-header mode on a real Connection against a scripted peer: the peer's byte log is cut by an independent deframer and each frame read by an independent reader; operations on never-connected, refused, wrong-digest, peer-closed-before-acknowledging and caller-closed connections (no success, no byte written); a peer that stops reading while a 24 MiB message is being written, with a second sender queued, 120 s of virtual time, then reading again and a third message (the stream must parse into whole frames, one per successful send); one Connection reused for a second session that negotiates the other framing mode (both directions); (concurrency) 2-3 tasks x 1-2 Node::send/link/monitor through one node with gates before the connection lock, between the partial writes of a frame and after a frame, per-operation cooperative-budget preemption (0..7 units left) and pairs of tasks made runnable in the same tick, all schedules within the deviation bound",
+        "rule": "(inputs) the six send-side operations x argument values (plain and node-local pids/references, names of 0/255 bytes and UTF-8, payloads from the boundary alphabet, unlink ids across 64 bits) in pass-through and distribution-header mode on a real Connection against a scripted peer: the peer's byte log is cut by an independent deframer and each frame read by an independent reader; operations on never-connected, refused, wrong-digest, peer-closed-before-acknowledging and caller-closed connections, also closed after the read half was handed out (no success, no byte written); one caller's four operations back to back behind a held connection in four rotations (wire order = issue order); Node operations repeated three times after failures towards an unconnected node (one frame each time); a peer that stops reading while a 24 MiB message is being written, with a second sender queued, 120 s of virtual time, then reading again and a third message (the stream must parse into whole frames, one per successful send); one Connection reused for a second session that negotiates the other framing mode (both directions); (concurrency) 2-3 tasks x 1-2 Node::send/link/monitor through one node with gates before the connection lock, between the partial writes of a frame and after a frame, per-operation cooperative-budget preemption (0..7 units left) and pairs of tasks made runnable in the same tick, all schedules within the deviation bound",
     })
 }
